@@ -1611,7 +1611,7 @@ def run(ctx):
                         ak = arg_kind(op)
                         add(f"wrong-request:{asked_why[qi]}:{api}", f"{api}: the request on the wire is not what the call asked for "
                             f"({asked_why[qi]})" + ("" if ak in ("-", "list") else f"; the argument {repr(op[1])[:120]} was passed as a "
-                            f"{'one-shot ' if ak in ONE_SHOT_KINDS else ''}{ak} object, sent body {ex['body'][:120]!r}"), True,
+                            f"{'one-shot ' if ak in ONE_SHOT_KINDS else ''}{ak} object, sent {ex['target'][:160]!r} with body {ex['body'][:120]!r}"), True,
                             **replay(sc, rec, qi, reason=asked_why[qi], argument_container=ak))
                 body = ex["body"]
                 req_ord[cap.conn] = req_ord.get(cap.conn, -1) + 1
